@@ -962,6 +962,32 @@ def run_c15(rep, tier, seed):
                 rep.violation("oracle", dict(what=f"max_connections={mx}, {k} accept(2) calls fail with errno {errno}: {what}; step `{script[li][:60]}` observed `{a}`", script=script, answers=ans,
                                              failing_line=li, expected=exp[li], observed=a))
                 break
+    # the retry loop itself (AcceptBackoff.accept, theorems c15_backoff_survives / c15_backoff_gives_up): the harness's server
+    # has min_backoff_ms = 10, max_backoff_ms = 100; the model says how a burst of k failing accept(2) calls ends
+    # (k <= 4: the connection is accepted; k = 5: the fifth failure finds the back-off at 160 > 100 and the listener ends)
+    for k in ([4, 5] if tier == "quick" else [1, 2, 3, 4, 5]):
+        m = run_driver(["cl.init 2", f"cl.backoff 10 100 {k}"])[1].split(" ")
+        script = ["srv.start max=2 mfs=1000000", f"io.failaccepts {k} 24", "c.open t", f"c.send t {GET_PROBE}", "c.read t 1 3000", "srv.wait 400", "io.failedaccepts", "srv.stop"]
+        exp = {4: "N", 5: "timeout"} if m[0] == "accepted" else {5: "returned"}
+        exp[6] = str(int(m[1]) - 1 if m[0] == "accepted" else int(m[1]))
+        shutil.rmtree(root, ignore_errors=True)
+        try:
+            ans = run_harness(["net", "--root", root, "--hang-ms", "30000"], script, preload=True, timeout=120)
+        except Died as d:
+            rep.violation("oracle", dict(what=f"{k} accept(2) calls fail in a row: harness died / hung ({d.why})", script=script, answers=d.answered))
+            continue
+        rep.cov["evaluations"] += len(script)
+        rep.count("accept_backoff_scenarios")
+        rep.nontrivial(["c15backoff", k])
+        for li in sorted(exp):
+            if ans[li] != exp[li]:
+                if m[0] == "accepted":
+                    rep.violation("oracle", dict(what=f"{k} accept(2) calls fail in a row (back-off 10 ms doubling, maximum 100 ms): the model of Listener::accept says the connection is accepted after the retries and the listener lives on; step `{script[li][:60]}` observed `{ans[li]}`",
+                                                 script=script, answers=ans, failing_line=li, expected=exp[li], observed=ans[li], model=m))
+                else:
+                    rep.violation("correspondence", dict(what=f"{k} accept(2) calls fail in a row: the model of Listener::accept says `{' '.join(m)}` (how it ends, calls, ms slept); step `{script[li][:60]}` observed `{ans[li]}`",
+                                                         script=script, answers=ans, failing_line=li, expected=exp[li], observed=ans[li], model=m))
+                break
     shutil.rmtree(root, ignore_errors=True)
     rep.cov["rule"] = ("seeded event scripts at max_connections 1/2/3: connect / probe (GET) / end by clean close, garbage or an unknown command (the client closing afterwards or keeping its socket open), half-sent frame, connection reset (RST, also while still queued behind the limit, with or without a half-sent frame), or handler panic (a store wrapper whose clone() panics once), "
                        "then 3*max connections that all end badly, then max+1 fresh connections; the Lean ConnLimit LTS (executed by the driver) predicts after every event which connections are served; "
